@@ -652,7 +652,8 @@ class DeserializationMethodVisitor(
                 and len(alt_methods) == 2
                 # with coercion, None alternative can accept other data than None, so
                 # it has to be tried first when it is declared first
-                and (self.coercer is None or types[0] is not NoneType)
+                # (first among the supported alternatives, the other ones being ignored)
+                and (self.coercer is None or alt_factories[0].cls is not NoneType)
             ):
                 value_method = next(
                     meth
